@@ -23,6 +23,16 @@ pub(crate) struct BeneficiaryReadVersion {
 }
 
 impl BeneficiaryReadVersion {
+    /// Origins as `tx.inc` newest first, for verification events.
+    #[cfg(grevm_verif)]
+    pub(crate) fn verif_origins(&self) -> String {
+        self.origins
+            .iter()
+            .map(|v| format!("{}.{}", v.txid, v.incarnation))
+            .collect::<Vec<_>>()
+            .join(",")
+    }
+
     /// Return the newest contributing transaction, if the read has an in-block dependency.
     pub(crate) fn latest_dependency(&self) -> Option<TxId> {
         self.origins.first().map(|version| version.txid)
@@ -134,18 +144,26 @@ impl HistoryEntry {
 
     /// Record the first publication for a newer execution incarnation.
     fn record(&self, incarnation: usize, value: EntryValue) -> bool {
+        vpoint!(HIST, "HE_Record");
         let mut state = self.state.write();
         if incarnation <= state.incarnation {
+            vemit!(HIST, "HE_Record", "inc" => incarnation, "cur" => state.incarnation, "ok" => false,
+                "exact" => matches!(value, EntryValue::Exact(_)));
             return false;
         }
 
+        vemit!(HIST, "HE_Record", "inc" => incarnation, "cur" => state.incarnation, "ok" => true,
+            "exact" => matches!(value, EntryValue::Exact(_)));
         *state = EntryState { incarnation, value };
         true
     }
 
     /// Invalidate only the exact incarnation that validation inspected.
     fn invalidate(&self, incarnation: usize) -> bool {
+        vpoint!(HIST, "HE_Invalidate");
         let mut state = self.state.write();
+        vemit!(HIST, "HE_Invalidate", "inc" => incarnation, "cur" => state.incarnation,
+            "ok" => state.incarnation == incarnation);
         if state.incarnation != incarnation {
             return false;
         }
@@ -157,7 +175,11 @@ impl HistoryEntry {
 
     /// Copy one entry while holding only its own read lock.
     fn snapshot(&self) -> EntryState {
-        self.state.read().clone()
+        vpoint!(HIST, "HE_Snapshot");
+        let state = self.state.read().clone();
+        vemit!(HIST, "HE_Snapshot", "inc" => state.incarnation,
+            "exact" => matches!(state.value, EntryValue::Exact(_)));
+        state
     }
 }
 
@@ -303,6 +325,68 @@ impl BeneficiaryHistory {
                 self.entries.len()
             )
         })
+    }
+}
+
+/// Forwarding wrapper used by the verification probes (`--cfg grevm_verif`).
+#[cfg(grevm_verif)]
+pub(crate) mod probe {
+    use super::*;
+    use revm_primitives::U256;
+
+    pub(crate) struct Inner(BeneficiaryHistory);
+
+    impl Inner {
+        pub(crate) fn new(anchor: Option<AccountInfo>, block_size: usize) -> Self {
+            Self(BeneficiaryHistory::new(anchor, block_size))
+        }
+
+        pub(crate) fn resolve_before(
+            &self,
+            txid: TxId,
+        ) -> Result<(Option<AccountInfo>, Vec<(usize, usize)>), TxId> {
+            self.0.resolve_before(txid).map(|read| {
+                let (account, version) = read.into_parts();
+                (account, version.origins.iter().map(|v| (v.txid, v.incarnation)).collect())
+            })
+        }
+
+        pub(crate) fn record(
+            &self,
+            version: &TxVersion,
+            effect: Option<Result<U256, Option<U256>>>,
+        ) -> bool {
+            let effect = match effect {
+                None => BeneficiaryEffect::Unchanged,
+                Some(Ok(amount)) => {
+                    BeneficiaryEffect::Reward(DeferredBeneficiaryReward::for_test(amount))
+                }
+                Some(Err(balance)) => BeneficiaryEffect::Snapshot(
+                    balance.map(|balance| AccountInfo { balance, ..Default::default() }),
+                ),
+            };
+            self.0.record_effect(version, effect)
+        }
+
+        pub(crate) fn record_estimate(&self, version: &TxVersion) -> bool {
+            self.0.record_estimate(version)
+        }
+
+        pub(crate) fn invalidate(&self, version: &TxVersion) -> bool {
+            self.0.invalidate(version)
+        }
+
+        pub(crate) fn validate(
+            &self,
+            txid: TxId,
+            expected: &[(usize, usize)],
+        ) -> (bool, Option<TxId>) {
+            let expected = BeneficiaryReadVersion {
+                origins: expected.iter().map(|&(t, i)| TxVersion::new(t, i)).collect(),
+            };
+            let validation = self.0.validate(txid, &expected);
+            (validation.is_valid(), validation.dependency())
+        }
     }
 }
 
